@@ -79,6 +79,8 @@ def canon(v):
         return tuple(canon(e) for e in v)
     if isinstance(v, dict):
         return ("<dict>", tuple(sorted((str(k), canon(x)) for k, x in v.items())))
+    if isinstance(v, ResultLike):
+        return ("<ResultLike>", v.term)
     if hasattr(v, "__dataclass_fields__"):
         return f"<{type(v).__name__} {v!r}>"  # e.g. pipefunc Resources handed to the function
     if isinstance(v, (set, frozenset)):
@@ -234,7 +236,8 @@ class Fn:
     """
 
     def __init__(self, name, params, defaults=None, n_out=1, out_shape=None, tag="", none_mod=0, seq_out=False,
-                 outer=None, dict_out=None):
+                 outer=None, dict_out=None, result_like=False):
+        self.result_like = result_like  # wrap the single result in an object that has a .result() method
         self.outer = dict(outer or {})  # own parameter name -> name in the pipeline (PipeFunc renames); logs use the latter
         self.dict_out = tuple(dict_out) if dict_out else None  # return {output name: value} (custom output_picker)
         self.none_mod = none_mod  # >0: return None (a legitimate value) for about one call in none_mod
@@ -261,7 +264,7 @@ class Fn:
 
     def __reduce__(self):
         return (Fn, (self.name, self.params, self.sig_defaults, self.n_out, self.out_shape, self.tag, self.none_mod,
-                     self.seq_out, self.outer, self.dict_out))
+                     self.seq_out, self.outer, self.dict_out, self.result_like))
 
     def _one(self, fname, args):
         if self.out_shape is None:
@@ -279,6 +282,8 @@ class Fn:
         if self.n_out == 1:
             if self.seq_out and self.out_shape is None:
                 return (Term(base, args, "a"), Term(base, args, "b"))
+            if self.result_like and self.out_shape is None:
+                return ResultLike(Term(base, args))
             return self._one(base, args)
         vals = tuple(self._one(f"{base}#{k}", args) for k in range(self.n_out))
         if self.dict_out:
@@ -308,6 +313,29 @@ class Fn:
         end = k.yield_point(f"ret:{name}")
         sim.calls.append(CallRec(name, args, start, end, tname, sim.attempt, False))
         return self.build(args)
+
+
+class ResultLike:
+    """A user value that happens to have a `.result()` method (a fit result, a job handle...): it is a value, not a
+    future - nobody may call `.result()` on it."""
+
+    def __init__(self, term):
+        self.term = term
+
+    def result(self):
+        return "<someone-called-result()-on-a-user-value>"
+
+    def __eq__(self, other):
+        return isinstance(other, ResultLike) and other.term == self.term
+
+    def __hash__(self):
+        return hash(("ResultLike", self.term))
+
+    def __repr__(self):
+        return f"ResultLike({self.term!r})"
+
+    def __reduce__(self):
+        return (ResultLike, (self.term,))
 
 
 class ResFn:
